@@ -158,6 +158,38 @@ func ZZ_C17_TCPAnyRecordLength() {
 	verifCover("incomplete-record")
 }
 
+// The bytes handed back for replay belong to the caller: the server keeps them
+// while it dials, and other streams are sniffed in the meantime. Sniffing a
+// second stream (TLS-looking or not, complete or cut short) leaves the first
+// stream's replay bytes exactly as they were returned.
+//
+//verif:harness kind=api unwind=128 bound=2-streams-in-sequence,TLS-record<=3B,second-stream<=8B
+func ZZ_C17_ReplayBytesStayIntact() {
+	verifSymAlloc(false)
+	h := &Sniffer{}
+	// first stream: a TLS record of 0..3 bytes, possibly cut short
+	rl := verifChoice("recordLenA", 4)
+	sentA := append([]byte{0x16, 0x03, 0x01, 0, byte(rl)}, verifBytes("bodyA", rl)...)
+	sentA = sentA[:len(sentA)-verifChoice("cutA", rl+1)]
+	stA := &zzStream{data: sentA, mode: 2, failAt: -1}
+	addrA := "10.0.0.1:443"
+	outA, err := h.TCP(stA, &addrA)
+	verifAssert(err == nil && len(outA) == len(sentA), "the first stream is replayed in full")
+	// second stream: arbitrary first bytes
+	sentB := verifBytes("sentB", 5+verifChoice("lenB", 4))
+	verifAssume(sentB[3] == 0 && sentB[4] <= 3)
+	stB := &zzStream{data: sentB, mode: 2, failAt: -1}
+	addrB := "10.0.0.2:443"
+	_, err = h.TCP(stB, &addrB)
+	verifAssert(err == nil, "the second stream is sniffed")
+	d := byte(0)
+	for i := range sentA {
+		d |= outA[i] ^ sentA[i]
+	}
+	verifAssert(d == 0, "the first stream's replay bytes are untouched by the sniffing of another stream")
+	verifCover("two-streams")
+}
+
 // The first UDP packet is handed to the sniffer as the very slice that is
 // forwarded next: it must come back byte-identical.
 //
